@@ -35,7 +35,7 @@ type Tok struct {
 
 type Trace struct {
 	ID   string `json:"id"`
-	Text string `json:"text"`
+	Text QStr   `json:"text"` // byte-exact: JSON strings would turn invalid UTF-8 into U+FFFD
 	B    int    `json:"b"`
 	E    int    `json:"e"`
 }
@@ -107,6 +107,12 @@ type Mode struct {
 	U      string `json:"u,omitempty"`    // "", uint16, uint32, uint64, uint
 	Pretty bool   `json:"pretty,omitempty"`
 	Print  bool   `json:"print,omitempty"` // also capture PrintSyntaxTree / WriteSyntaxTree
+	// TreeFirst: call the tree accessors (SprintSyntaxTree, AST) before Tokens() and Execute()
+	TreeFirst bool `json:"treefirst,omitempty"`
+	// RawPrint: also call PrintSyntaxTree() (the coloured printer for Pretty instances)
+	// straight to the worker's standard output, which is /dev/null: nothing is observed
+	// but panics and what the race detector says about concurrent instances
+	RawPrint bool `json:"rawprint,omitempty"`
 }
 
 // Obs is everything observable about one parse.
@@ -124,7 +130,10 @@ type Obs struct {
 	AST      *TNode  `json:"ast,omitempty"`
 	Pretty   string  `json:"prettyprint,omitempty"` // AST().PrettyPrint into a buffer (Pretty mode)
 	Panic    string  `json:"panic,omitempty"`
-	NoAST    bool    `json:"noast,omitempty"`
+	// Unstable: something already observed changed when looked at again (Tokens() re-read
+	// after the other accessors; an error returned by an earlier Parse of the same text)
+	Unstable string `json:"unstable,omitempty"`
+	NoAST    bool   `json:"noast,omitempty"`
 }
 
 type Step struct {
